@@ -171,7 +171,10 @@ def splitOps (rest : String) : List String := (rest.splitOn ";").filter (· ≠ 
 
 /-- the output for the two deployment variants; identical unless the history observes the contract's ONT balance -/
 def historyLine (verbose : Bool) (funded : Bool) (rest : String) : String :=
-  runHistory verbose (splitOps rest) (initSt funded genesis) []
+  let s0 := initSt funded genesis
+  let shipped := runHistory verbose (splitOps rest) s0 []
+  let sound := runHistory verbose (splitOps rest) { s0 with book := { s0.book with soundGp := true } } []
+  if shipped == sound then shipped else shipped ++ " ## " ++ sound
 
 /-! ### direct fee-split cases
 `S <newPeerCost> <exactDiv> <K> <A> <B> <yita> <splitNum> <dappFee> <gas|-> <balance> <splitFee> <cands>`
